@@ -1045,3 +1045,29 @@ func (e *Env) JudgeListUsers(who string, rq gen.Request, st *rm.State, got []str
 		simrt.Probe("lu_empty")
 	}
 }
+
+// ListUsersEquivalent: two ListUsers answers for one state are the same answer if they differ only
+// in concrete users that a wildcard of their type, present in BOTH answers, already covers (C06:
+// "returned either explicitly or through a returned wildcard of its type" — whether such a user is
+// also listed by name depends on which branch of the expansion finishes first).
+func ListUsersEquivalent(a, b []string) bool {
+	as, bs := toSet(a), toSet(b)
+	covered := func(u string) bool {
+		if rm.IsWildcard(u) || rm.IsUserset(u) {
+			return false
+		}
+		w := rm.ObjType(u) + ":*"
+		return as[w] && bs[w]
+	}
+	for u := range as {
+		if !bs[u] && !covered(u) {
+			return false
+		}
+	}
+	for u := range bs {
+		if !as[u] && !covered(u) {
+			return false
+		}
+	}
+	return true
+}
